@@ -487,7 +487,36 @@ func realTamper(r *rng, n int, sw *sweep, mutate bool) {
 		vext := ext
 		edits := "none"
 		if mutate {
-			switch r.intn(8) {
+			switch r.intn(9) {
+			case 8: // other renderings of the same (r, s): stripped / extra leading zeros, DER
+				edits = "ecdsa-form"
+				if k.name == "ecdsa" {
+					sg := root.Items[3].B
+					n := len(sg) / 2
+					rr, ss := new(big.Int).SetBytes(sg[:n]), new(big.Int).SetBytes(sg[n:])
+					if k.alg == cose.AlgorithmES512 {
+						// find a signature whose halves both start with a zero byte (1 in 4 on P-521)
+						// so that every "shortened halves" rendering exists
+						for try := 0; try < 60 && !(sg[0] == 0 && sg[n] == 0); try++ {
+							sg = stdSign(k, refTBS1(root.Items[0].B, ext, payload))
+						}
+						n = len(sg) / 2
+						rr, ss = new(big.Int).SetBytes(sg[:n]), new(big.Int).SetBytes(sg[n:])
+					}
+					switch r.intn(5) {
+					case 0:
+						root.Items[3].B = append(append([]byte{}, rr.Bytes()...), ss.Bytes()...)
+					case 1:
+						root.Items[3].B = derSig(rr, ss)
+					case 2:
+						root.Items[3].B = append(leftPadBytes(rr.Bytes(), n+1), leftPadBytes(ss.Bytes(), n+1)...)
+					case 3:
+						root.Items[3].B = append(leftPadBytes(rr.Bytes(), n-1), leftPadBytes(ss.Bytes(), n-1)...)
+					case 4:
+						root.Items[3].B = append(append([]byte{}, sg...), 0)
+					}
+					wire = top.enc()
+				}
 			case 0, 1:
 				wire = mutateRaw(r, wire)
 				edits = "raw"
